@@ -332,6 +332,26 @@ func (cx *Ctx) replayKnown() (confirmed []string) {
 	return
 }
 
+// runCorpus evaluates every committed regression spec of this property (corpus/<prop>_*.json: minimised inputs of
+// defects found earlier, repaired since). A corpus entry is a replay file; it must NOT violate its oracle.
+func (cx *Ctx) runCorpus() (n int) {
+	files, _ := filepath.Glob(filepath.Join(cx.Verif, "corpus", cx.Prop+"_*.json"))
+	sort.Strings(files)
+	for _, f := range files {
+		rf, err := loadReplay(f)
+		if err != nil {
+			cx.trouble("corpus %s: %v", f, err)
+			continue
+		}
+		n++
+		if v, key, what, fp := cx.evalReplay(rf); v {
+			rf.Key, rf.What, rf.Expect = key, what, fp
+			cx.report(key, "regression corpus "+filepath.Base(f)+": "+what, rf)
+		}
+	}
+	return n
+}
+
 func loadReplay(path string) (*ReplayFile, error) {
 	b, err := os.ReadFile(path)
 	if err != nil {
